@@ -539,7 +539,7 @@ func c02Lookup(a *Anchors, r *core.Report, pushes []mailboxPush) {
 			}
 		})
 	}
-	r.Floor(rule, 20)
+	r.Floor(rule, 23)
 	_ = n
 }
 
